@@ -21,13 +21,13 @@ import (
 
 func init() {
 	Registry["C11"] = Spec{
-		Fn:     c11,
-		Level:  "exploration",
-		Builds: []string{"race"},
-		Shards: 8,
-		Rule: "many short histories (<= 60 operations) of 1..12 goroutines sharing a pool with MaxConns 1..4 over simulated connections: Acquire, 1..3 queries (ok / server exception / connection dropped / cancelled), Ping, Release once / twice / a stale handle released again after somebody else acquired, Pool.Do, Pool.Ping, Close; configuration classes: pure locking (long lifetimes), destroy-on-release (MaxConnLifetime 1 ns), idle reaping (MaxConnIdleTime 1 ns, health period 2 ms, judged in completed health passes through the pool:health-pass hook), mixed short lifetimes. Every acquisition carries a unique session id in its query ids. Oracles over the recorded event log: (a) per connection the server-side request log must consist of contiguous session blocks; (b) the acquire/release history is checked for linearizability against a lock-per-connection model with porcupine (partitioned by connection; timeout = inconclusive); (c) dialed - closed <= MaxConns at every dial; (d) no session on a connection after a release at which its client was closed / in destroy-on-release mode; (e) no panic; (f) idle connections closed within 3 health passes; (g) after Close with all handles released every dialed connection is closed. Built with -race. Non-trivial = >= 2 holders contended for one connection; distinct = history fingerprint",
-		Assumptions: []string{"the harness never uses a handle after releasing it (only releases it again)", "porcupine v1.3.0 as the linearizability checker"},
-		MinDistinct: 50,
+		Fn:           c11,
+		Level:        "exploration",
+		Builds:       []string{"race"},
+		Shards:       8,
+		Rule:         "many short histories (<= 60 operations) of 1..12 goroutines sharing a pool with MaxConns 1..4 over simulated connections: Acquire, 1..3 queries (ok / server exception / connection dropped / cancelled), Ping, Release once / twice / a stale handle released again after somebody else acquired, Pool.Do, Pool.Ping, Close; configuration classes: pure locking (long lifetimes), destroy-on-release (MaxConnLifetime 1 ns), idle reaping (MaxConnIdleTime 1 ns, health period 2 ms, judged in completed health passes through the pool:health-pass hook), mixed short lifetimes. Every acquisition carries a unique session id in its query ids. Oracles over the recorded event log: (a) per connection the server-side request log must consist of contiguous session blocks; (b) the acquire/release history is checked for linearizability against a lock-per-connection model with porcupine (partitioned by connection; timeout = inconclusive); (c) dialed - closed <= MaxConns at every dial; (d) no session on a connection after a release at which its client was closed / in destroy-on-release mode; (e) no panic; (f) idle connections closed within 3 health passes; (g) after Close with all handles released every dialed connection is closed. Built with -race. Non-trivial = >= 2 holders contended for one connection; distinct = history fingerprint",
+		Assumptions:  []string{"the harness never uses a handle after releasing it (only releases it again)", "porcupine v1.3.0 as the linearizability checker"},
+		MinDistinct:  50,
 		TimeoutQuick: 20 * time.Minute,
 	}
 }
